@@ -37,7 +37,7 @@ pub static PROP: Prop = Prop {
         "a decoder panic on a modified packet is not judged here (C23)",
     ],
     profiles: Profiles::Both,
-    cases: |t| t.pick(600, 6_000),
+    cases: |t| t.pick(1_500, 15_000),
     budget_s: |t| t.pick(45, 420),
     run,
     min_nontrivial: 30,
